@@ -141,9 +141,9 @@ class Node:
                 kw["compression"] = INT(p["comp"])
             return Call("tls::server_hello", _x=kx, **kw)
         if k == "sni":
-            return Call("tls::sni", _x=[lit_expr(n, files, tag) for n in p["names"]])
+            return Call("tls::sni", _x=items_expr(p["names"], p.get("bufio"), files, tag))
         if k == "certs":
-            return Call("tls::certificates", _x=[lit_expr(c, files, tag) for c in p["certs"]])
+            return Call("tls::certificates", _x=items_expr(p["certs"], p.get("bufio"), files, tag))
         if k == "dhcpopt":
             return Call("dhcp::option", INT(p["code"]), _x=kx)
         if k == "answer":
@@ -169,6 +169,25 @@ WD = [None]        # work directory of the run: data files are addressed by abso
 
 def set_workdir(tag):
     WD[0] = common.BUILD + "/work/%s-%d" % (tag, os.getpid())
+
+
+PRELUDE = []          # statements an expression needs in front of it (filled while a case is rendered)
+
+
+def items_expr(items, via_bufio, files, tag):
+    """the items as literals, or -- the way a script carves them out of one blob -- as consecutive io::bufio reads
+    bound to names (each is then a piece of a larger buffer used directly as an item)"""
+    if not via_bufio or not items or sum(len(x) for x in items) > 1200:
+        return [lit_expr(x, files, tag) for x in items]
+    k = len(PRELUDE)
+    buf = "zb%d" % k
+    PRELUDE.append(Let(buf, Call("io::bufio", _x=[STR(b"".join(items) + b"tail-of-the-blob")])))
+    out = []
+    for i, x in enumerate(items):
+        nm = "zi%d_%d" % (k, i)
+        PRELUDE.append(Let(nm, Call(buf + ".read", INT(len(x)))))
+        out.append(Ref(nm))
+    return out
 
 
 def lit_expr(b, files, tag):
@@ -381,8 +400,9 @@ def make_case(name, roots, kind):
     c = Case()
     c.name, c.files, c.text, c.meta = name, {}, None, []
     size = sum(n.size() for n in roots)
+    del PRELUDE[:]
     exprs = [n.expr(c.files, name) for n in roots]
-    st = [Import(m) for m in ("ipv4", "std", "tls", "io", "dhcp", "dns", "netbios")]
+    st = [Import(m) for m in ("ipv4", "std", "tls", "io", "dhcp", "dns", "netbios")] + list(PRELUDE)
     if size <= CHUNK:
         st.append(Do(Call("ipv4::udp::unicast", SOCK(SRC), SOCK(DST), _x=exprs)))
     else:
@@ -480,6 +500,8 @@ def helper_cases(ctx, prefix=""):
                 continue
             add([Node("sni", names=[rbytes(r, sz if i == 0 else r.choice([0, 1, 7, sz])) for i in range(cnt)])], "sni")
             add([Node("certs", certs=[rbytes(r, sz if i == 0 else r.choice([0, 1, 7, sz])) for i in range(cnt)])], "certs")
+            add([Node("sni", names=[rbytes(r, sz if i == 0 else r.choice([0, 1, 7, sz])) for i in range(cnt)], bufio=True)], "sni")
+            add([Node("certs", certs=[rbytes(r, sz if i == 0 else r.choice([0, 1, 7, sz])) for i in range(cnt)], bufio=True)], "certs")
     add([Node("sni", names=[rbytes(r, 65535 - 5 - 3)])], "sni-big")                     # list length field = 65530, total 65535 - 3... exact fit
     add([Node("sni", names=[rbytes(r, 65530)])], "sni-big")                             # 2 + 3 + 65530 = 65535: the largest that fits
     add([Node("sni", names=[rbytes(r, 65531)])], "sni-big")                             # one more: outside
